@@ -32,13 +32,15 @@ class Ctx:
         return C.run_impl(exe, cases, **self.ikw)
 
     def model(self, cases):
+        # a model answer containing UNMODELLED (panic site 99 of Model/Builtins.v: a builtin, or an arm of one,
+        # that needs libm/rand/time and has no model) is not an answer: such a case is implementation-only
         if self.skip is None:
-            return C.run_model(self.model_exe, cases, **self.kw)
+            return [SKIPPED if "UNMODELLED" in l else l for l in C.run_model(self.model_exe, cases, **self.kw)]
         keep = [i for i, c in enumerate(cases) if not self.skip(c)]
         lines = C.run_model(self.model_exe, [cases[i] for i in keep], **self.kw)
         out = [SKIPPED] * len(cases)
         for i, l in zip(keep, lines):
-            out[i] = l
+            out[i] = SKIPPED if "UNMODELLED" in l else l
         return out
 
 
